@@ -11,9 +11,9 @@ use nix::unistd::Pid;
 use serde::Serialize;
 use serde_json::{Value, json};
 use std::collections::{HashMap, HashSet};
-use std::io::{BufRead, BufReader};
-use std::sync::atomic::AtomicI64;
-use std::sync::{Arc, Mutex};
+use std::io::{BufRead, BufReader, Write};
+use std::sync::atomic::{AtomicBool, AtomicI64, Ordering};
+use std::sync::{Arc, Mutex, mpsc};
 use std::thread;
 use std::time::Duration;
 
@@ -46,7 +46,10 @@ pub struct DebugSession {
     next_source_reference: i64,
     events: Vec<InternalEvent>,
     next_progress_id: u64,
-    terminated: bool,
+    /// Set when the debug session is over (`terminated` is sent): no event may follow.
+    /// Shared with the output forwarders.
+    terminated: Arc<AtomicBool>,
+    output_sync: Option<OutputSync>,
     exit_code: Option<i32>,
     exception_filters: Vec<String>,
     last_stop: Option<control::LastStop>,
@@ -59,6 +62,17 @@ const EXCEPTION_FILTER_SIGNAL: &str = "signal";
 const EXCEPTION_FILTER_PROCESS: &str = "process";
 const DEBUGGER_RESPONSE_TIMEOUT: Duration = Duration::from_secs(5);
 const MEMORY_READ_TIMEOUT: Duration = Duration::from_secs(5);
+/// A line the session writes into the debugee output pipes: everything the debugee printed before
+/// is on the wire when a forwarder meets it (see [`DebugSession::flush_output`]).
+const OUTPUT_FLUSH_MARK: &str = "\u{0}bs-output-flush\u{0}\n";
+
+/// The session's side of the debugee output forwarding.
+struct OutputSync {
+    /// Write ends of the stdout and stderr pipes (the debugger keeps its own ones for restarts).
+    pipes: [os_pipe::PipeWriter; 2],
+    /// A forwarder reports here when it meets [`OUTPUT_FLUSH_MARK`].
+    flushed: mpsc::Receiver<()>,
+}
 
 #[derive(Default)]
 struct VariablesStore {
@@ -115,7 +129,8 @@ impl DebugSession {
             next_source_reference: 1,
             events: Vec::new(),
             next_progress_id: 1,
-            terminated: false,
+            terminated: Arc::new(AtomicBool::new(false)),
+            output_sync: None,
             exit_code: None,
             exception_filters: vec![
                 EXCEPTION_FILTER_SIGNAL.to_string(),
@@ -134,7 +149,7 @@ impl DebugSession {
     /// writes (the session or an output forwarder), so the number may only be taken while the
     /// transport is locked - the locked transport is the evidence.
     fn next_seq(server_seq: &AtomicI64, _locked_io: &mut dyn DapTransport) -> i64 {
-        server_seq.fetch_add(1, std::sync::atomic::Ordering::Relaxed)
+        server_seq.fetch_add(1, Ordering::Relaxed)
     }
 
     fn next_progress_id(&mut self) -> String {
@@ -235,7 +250,7 @@ impl DebugSession {
         drained.append(&mut self.events);
 
         // If we already terminated this session, ignore any late events (output/stopped etc.).
-        if self.terminated {
+        if self.terminated.load(Ordering::SeqCst) {
             return Ok(());
         }
 
@@ -256,12 +271,17 @@ impl DebugSession {
             }
         }
 
+        if exit_code.is_some() || has_terminated {
+            // The debugee is gone, but its last output may still be on the way.
+            self.flush_output();
+        }
+
         if let Some(code) = exit_code {
             self.send_events(|ev| matches!(ev, InternalEvent::Output { .. }), &drained)?;
 
             // Natural process exit: exited -> terminated (exactly once).
             self.emit_process_end()?;
-            self.terminated = true;
+            self.terminated.store(true, Ordering::SeqCst);
             self.exit_code = Some(code);
             self.send_event_body("exited", json!({ "exitCode": code }))?;
             self.send_event("terminated")?;
@@ -273,8 +293,10 @@ impl DebugSession {
 
             // User-initiated termination: terminated only (exactly once).
             self.emit_process_end()?;
-            self.terminated = true;
+            self.terminated.store(true, Ordering::SeqCst);
             self.send_event("terminated")?;
+            // The debugger is dropped, release our ends of the pipes too: the forwarders finish.
+            self.output_sync = None;
             return Ok(());
         }
 
@@ -538,66 +560,100 @@ impl DebugSession {
             .collect()
     }
 
+    /// Wait until the forwarders have delivered everything the debugee printed so far.
+    ///
+    /// The pipes do not reach EOF when the debugee exits (the debugger keeps them for restarts),
+    /// so a mark is sent through each pipe and the forwarders report when they meet it.
+    fn flush_output(&mut self) {
+        let Some(sync) = self.output_sync.as_mut() else {
+            return;
+        };
+        // Reports of a flush that timed out.
+        while sync.flushed.try_recv().is_ok() {}
+
+        let mut marked = 0;
+        for pipe in &mut sync.pipes {
+            // Fails if the forwarder is gone.
+            if pipe.write_all(OUTPUT_FLUSH_MARK.as_bytes()).is_ok() {
+                marked += 1;
+            }
+        }
+        for _ in 0..marked {
+            if sync
+                .flushed
+                .recv_timeout(DEBUGGER_RESPONSE_TIMEOUT)
+                .is_err()
+            {
+                warn!(target: "debugger", "debugee output is not flushed");
+                break;
+            }
+        }
+    }
+
     fn start_output_forwarding(
-        &self,
+        &mut self,
         stdout_reader: os_pipe::PipeReader,
         stderr_reader: os_pipe::PipeReader,
+        pipes: [os_pipe::PipeWriter; 2],
     ) {
         // Start stdout/stderr forwarding.
+        let (flushed_tx, flushed) = mpsc::channel();
+        self.output_sync = Some(OutputSync { pipes, flushed });
+        self.spawn_output_forwarder(stdout_reader, "stdout", flushed_tx.clone());
+        self.spawn_output_forwarder(stderr_reader, "stderr", flushed_tx);
+    }
+
+    fn spawn_output_forwarder(
+        &self,
+        reader: os_pipe::PipeReader,
+        category: &'static str,
+        flushed: mpsc::Sender<()>,
+    ) {
         let io = self.io.clone();
         let seq = self.server_seq.clone();
+        let terminated = self.terminated.clone();
         thread::spawn(move || {
-            let mut reader = BufReader::new(stdout_reader);
+            let mut reader = BufReader::new(reader);
             let mut buf = String::new();
             loop {
                 buf.clear();
                 match reader.read_line(&mut buf) {
                     Ok(0) => break,
                     Ok(_) => {
-                        {
-                            let mut lock = io.lock().unwrap();
-                            let s = Self::next_seq(&seq, &mut *lock);
-                            #[cfg(feature = "verif")]
-                            crate::dap::verif::sched_point("forwarder.stdout", s);
-
-                            // TODO log it somehow
-                            _ = protocol::send_event(
-                                s,
-                                &mut *lock,
-                                "output",
-                                Some(json!({ "category": "stdout", "output": buf.clone() })),
-                            );
+                        let flush = buf.ends_with(OUTPUT_FLUSH_MARK);
+                        if flush {
+                            // The mark may follow an unfinished line.
+                            buf.truncate(buf.len() - OUTPUT_FLUSH_MARK.len());
                         }
-                    }
-                    Err(_) => break,
-                }
-            }
-        });
 
-        let io = self.io.clone();
-        let seq = self.server_seq.clone();
-
-        thread::spawn(move || {
-            let mut reader = BufReader::new(stderr_reader);
-            let mut buf = String::new();
-            loop {
-                buf.clear();
-                match reader.read_line(&mut buf) {
-                    Ok(0) => break,
-                    Ok(_) => {
-                        {
+                        if !buf.is_empty() {
                             let mut lock = io.lock().unwrap();
-                            let s = Self::next_seq(&seq, &mut *lock);
-                            #[cfg(feature = "verif")]
-                            crate::dap::verif::sched_point("forwarder.stderr", s);
+                            // Nothing may follow `terminated`, checked with the transport locked:
+                            // the session sets the flag before it writes `terminated`.
+                            if !terminated.load(Ordering::SeqCst) {
+                                let s = Self::next_seq(&seq, &mut *lock);
+                                #[cfg(feature = "verif")]
+                                crate::dap::verif::sched_point(
+                                    if category == "stdout" {
+                                        "forwarder.stdout"
+                                    } else {
+                                        "forwarder.stderr"
+                                    },
+                                    s,
+                                );
 
-                            // TODO log it somehow
-                            _ = protocol::send_event(
-                                s,
-                                &mut *lock,
-                                "output",
-                                Some(json!({ "category": "stderr", "output": buf.clone() })),
-                            );
+                                // TODO log it somehow
+                                _ = protocol::send_event(
+                                    s,
+                                    &mut *lock,
+                                    "output",
+                                    Some(json!({ "category": category, "output": buf.clone() })),
+                                );
+                            }
+                        }
+
+                        if flush {
+                            _ = flushed.send(());
                         }
                     }
                     Err(_) => break,
